@@ -159,6 +159,12 @@ def snCheck (fs : FS) (root rel : Str) : SRes :=
         | some (.dir _ _) => .cont
         | _ => .fail
 
+/-- the lexical check on a link of `packagePrepareWalkFn`: the target is relative and, joined to the
+directory of the link (relative to the package root), stays inside the package as written -/
+def snLinkOK (rel : Str) : Node → Bool
+  | .link t => !isAbs t && isLocal (pathJoin (pathDir rel) t)
+  | _ => true
+
 theorem sn_prepVisit_eq (rules : List Rule) (root : Str) (fs : FS) (absPath : Str) (node : Node) :
     prepVisit rules root fs absPath node =
       match pathRel root absPath with
@@ -167,7 +173,7 @@ theorem sn_prepVisit_eq (rules : List Rule) (root : Str) (fs : FS) (absPath : St
         if rel = dot then (fs, .cont)
         else if (excludes rules rel).1 then (fs.removeAll absPath, .cont)
         else if snIsDir node && (excludes rules (rel ++ ['/'])).1 then (fs.removeAll absPath, .skipDir)
-        else (fs, snCheck fs root rel) := by
+        else (fs, if snLinkOK rel node then snCheck fs root rel else .fail) := by
   unfold prepVisit
   cases hrel : pathRel root absPath with
   | none => rfl
@@ -180,7 +186,7 @@ theorem sn_prepVisit_eq (rules : List Rule) (root : Str) (fs : FS) (absPath : St
       | true => simp only [if_true]
       | false =>
         simp only [Bool.false_eq_true, if_false]
-        have tail : (match fs.evalSymlinks root with
+        have tail : ∀ b : Bool, (match fs.evalSymlinks root with
             | none => (fs, SRes.fail)
             | some absRoot =>
               match fs.evalSymlinks (pathJoin ('/' :: joinWith '/' absRoot) rel) with
@@ -188,35 +194,43 @@ theorem sn_prepVisit_eq (rules : List Rule) (root : Str) (fs : FS) (absPath : St
               | some real =>
                 if (!List.isPrefixOf absRoot real) = true then (fs, SRes.fail)
                 else
+                  if (!b) = true then (fs, SRes.fail)
+                  else
                   match fs.lookup real with
                   | some (Node.file _ _ _) => (fs, SRes.cont)
                   | some (Node.dir _ _) => (fs, SRes.cont)
-                  | _ => (fs, SRes.fail)) = (fs, snCheck fs root rel) := by
+                  | _ => (fs, SRes.fail)) = (fs, if b then snCheck fs root rel else .fail) := by
+          intro b
           unfold snCheck ofSegs
           cases fs.evalSymlinks root with
-          | none => rfl
+          | none => cases b <;> rfl
           | some absRoot =>
             simp only
             cases fs.evalSymlinks (pathJoin ('/' :: joinWith '/' absRoot) rel) with
-            | none => rfl
+            | none => cases b <;> rfl
             | some real =>
               simp only
               cases h4 : (!(absRoot.isPrefixOf real)) with
-              | true => simp only [if_true]
+              | true => cases b <;> simp only [if_true, Bool.false_eq_true, if_false]
               | false =>
-                simp only [Bool.false_eq_true, if_false]
-                cases fs.lookup real with
-                | none => rfl
-                | some n => cases n <;> rfl
+                cases b with
+                | false => simp only [Bool.false_eq_true, if_false, Bool.not_false, if_true]
+                | true =>
+                  simp only [Bool.false_eq_true, if_false, Bool.not_true, if_true]
+                  cases fs.lookup real with
+                  | none => rfl
+                  | some n => cases n <;> rfl
         cases node with
         | dir pm mt =>
           simp only [snIsDir, Bool.true_and]
           cases (excludes rules (rel ++ ['/'])).1 with
           | true => simp only [if_true]
-          | false => simp only [Bool.false_eq_true, if_false]; exact tail
-        | file pm mt c => simp only [snIsDir, Bool.false_and, Bool.false_eq_true, if_false]; exact tail
-        | link t => simp only [snIsDir, Bool.false_and, Bool.false_eq_true, if_false]; exact tail
-        | special => simp only [snIsDir, Bool.false_and, Bool.false_eq_true, if_false]; exact tail
+          | false => simp only [Bool.false_eq_true, if_false]; exact tail true
+        | file pm mt c => simp only [snIsDir, Bool.false_and, Bool.false_eq_true, if_false]; exact tail true
+        | link t =>
+          simp only [snIsDir, Bool.false_and, Bool.false_eq_true, if_false]
+          exact tail (!isAbs t && isLocal (pathJoin (pathDir rel) t))
+        | special => simp only [snIsDir, Bool.false_and, Bool.false_eq_true, if_false]; exact tail true
 
 /-- the callback either leaves the filesystem alone or removes the visited path -/
 theorem sn_prepVisit_fst_cases (rules : List Rule) (root : Str) (fs : FS) (absPath : Str) (node : Node) :
@@ -1062,8 +1076,11 @@ theorem sn_skipDir_only_dirs {rules : List Rule} {root : Str} {fs fs' : FS} {abs
           simp only [Bool.and_eq_true] at hc
           exact hc.1
         · rename_i rel _ _ _ _
-          have h2 : snCheck fs root rel = .skipDir := congrArg Prod.snd h
-          rcases sn_check_cases fs root rel with e | e <;> rw [e] at h2 <;> cases h2
+          have h2 : (if snLinkOK rel node then snCheck fs root rel else .fail) = SRes.skipDir :=
+            congrArg Prod.snd h
+          split at h2
+          · rcases sn_check_cases fs root rel with e | e <;> rw [e] at h2 <;> cases h2
+          · cases h2
 
 theorem sn_walk_nondir_noskip {rules : List Rule} {root : Str} {fuel : Nat} {fs fs' : FS} {path : Str}
     {node : Node} (hn : snIsDir node = false)
@@ -1168,7 +1185,7 @@ def SanGood (rules : List Rule) (work : Str) (fs' : FS) (k : PPath) (n : Node) :
   ∃ rel, pathRel work (ofSegs k) = some rel ∧
     (rel = dot ∨
       ((excludes rules rel).1 = false ∧ (snIsDir n && (excludes rules (rel ++ ['/'])).1) = false ∧
-        SanKind work fs' k n))
+        SanKind work fs' k n ∧ snLinkOK rel n = true))
 
 theorem SanKind.mono {work : Str} {fs1 fs2 : FS} {k : PPath} {n : Node} (h : SanKind work fs1 k n)
     (hs : SnSub fs2 fs1) : SanKind work fs2 k n := by
@@ -1184,9 +1201,9 @@ theorem SanGood.mono {rules : List Rule} {work : Str} {fs1 fs2 : FS} {k : PPath}
     (h : SanGood rules work fs1 k n) (hs : SnSub fs2 fs1) : SanGood rules work fs2 k n := by
   obtain ⟨rel, h1, h2⟩ := h
   refine ⟨rel, h1, ?_⟩
-  rcases h2 with e | ⟨a, b, c⟩
+  rcases h2 with e | ⟨a, b, c, d⟩
   · exact Or.inl e
-  · exact Or.inr ⟨a, b, c.mono hs⟩
+  · exact Or.inr ⟨a, b, c.mono hs, d⟩
 
 theorem sn_pathRel_self (a : Str) : pathRel a a = some dot := by
   unfold pathRel; simp
@@ -1234,8 +1251,16 @@ theorem sn_visit_post {rules : List Rule} {work : Str} {fs0 fs : FS} {path : Str
         rw [hexd] at hv
         simp only [Bool.false_eq_true, if_false] at hv
         have h1 : fs = fs1 := congrArg Prod.fst hv
-        have h2 : snCheck fs work rel = r := congrArg Prod.snd hv
+        have h2 : (if snLinkOK rel node then snCheck fs work rel else .fail) = r := congrArg Prod.snd hv
         subst h1
+        have hlok : snLinkOK rel node = true := by
+          cases hb : snLinkOK rel node with
+          | true => rfl
+          | false =>
+            rw [hb] at h2
+            simp only [Bool.false_eq_true, if_false] at h2
+            rcases hr with rfl | rfl <;> cases h2
+        rw [hlok, if_pos rfl] at h2
         have hcont : snCheck fs work rel = .cont := by
           rcases sn_check_cases fs work rel with e | e
           · exact e
@@ -1245,7 +1270,7 @@ theorem sn_visit_post {rules : List Rule} {work : Str} {fs0 fs : FS} {path : Str
         obtain ⟨hrr, _⟩ := sn_evalSymlinks_some hroot
         obtain ⟨rfl, _⟩ := sn_work_resolves hctx.clean hctx.real hctx.sub hrr
         rw [← absClean_eq_ofSegs work hctx.clean, hjoin] at hreal
-        refine Or.inr ⟨rfl, hrc, rel, by rw [hofs]; exact hrel, Or.inr ⟨hex, hexd, ?_⟩⟩
+        refine Or.inr ⟨rfl, hrc, rel, by rw [hofs]; exact hrel, Or.inr ⟨hex, hexd, ?_, hlok⟩⟩
         cases node with
         | file pm mt c => trivial
         | dir pm mt => trivial
